@@ -383,7 +383,7 @@ def _companions(ctx):
     for member in prog.enum_members(mm.PR):
         res = mm.run_relation(prog, "RPE", member)
         err = res.attrs.get((mm.SELF, "error"))
-        dids = res.attrs.get((mm.SELF, "delta_ids"))
+        dids = mm.final_attr(prog, res, "RPE", "delta_ids")
         idps = res.calls(IDP)
         ctx.require(err is not None and dids is not None and len(idps) == 1,
                     f"RPE[{member}]: error/delta_ids/id_pairs not found")
